@@ -1413,6 +1413,10 @@ func (e *MetaCDC) pauseTaskWithReason(taskID, reason string, currentStates []met
 		reason)
 	if err != nil {
 		log.Warn("fail to update task reason", zap.String("task_id", taskID), zap.String("reason", reason))
+		if len(currentStates) != 0 {
+			// a pause asked for through the API: it is answered with an error, so nothing may change
+			return err
+		}
 	}
 	e.cdcTasks.Lock()
 	cdcTask := e.cdcTasks.data[taskID]
